@@ -53,6 +53,7 @@ namespace
         double m = 0.5, n = 1.0, dt = 1.0, tol = 1e-3;
         int area_mode = 0;     // 0 accumulate(1), 1 all ones, 2 three-level pattern
         int elev_mode = 0;     // 0 erode the returned (resolved) elevation, 1 erode the raw input
+        int via_setters = 0;   // 1: parameters reached through set_k_coef / set_area_exp / set_slope_exp
         int second_call = 0;   // 1: judged on the second erode() call of the same eroder (first call used the other mode)
     };
 
@@ -87,7 +88,7 @@ namespace
                 o << (i ? " " : "") << c.base[i];
         o << ";prog=" << c.prog.str() << ";K=" << hexd(c.p.k) << ";Karr=" << (c.p.k_array ? 1 : 0) << ";mexp=" << hexd(c.p.m)
           << ";nexp=" << hexd(c.p.n) << ";dt=" << hexd(c.p.dt) << ";tol=" << hexd(c.p.tol) << ";area=" << c.p.area_mode
-          << ";emode=" << c.p.elev_mode << ";call2=" << c.p.second_call;
+          << ";emode=" << c.p.elev_mode << ";call2=" << c.p.second_call << ";setters=" << c.p.via_setters;
         return o.str();
     }
 
@@ -121,6 +122,7 @@ namespace
         c.p.area_mode = std::atoi(kv["area"].c_str());
         c.p.elev_mode = std::atoi(kv["emode"].c_str());
         c.p.second_call = kv.count("call2") ? std::atoi(kv["call2"].c_str()) : 0;
+        c.p.via_setters = kv.count("setters") ? std::atoi(kv["setters"].c_str()) : 0;
         return true;
     }
 
@@ -182,10 +184,15 @@ namespace
                     }
             auto acc1 = fg.accumulate(1.0);
             bool multi = !fg.single_flow();
+            std::size_t pidx = 0;
             for (const auto& p : params)
             {
+                // every other parameter point reaches its parameters through the setters of an
+                // eroder that was constructed with different ones
+                const bool via_setters = (pidx++ % 2) == 1;
                 SCase c = c0;
                 c.p = p;
+                c.p.via_setters = (via_setters || c0.p.via_setters) ? 1 : 0;
                 ++ctx.rep.evaluations;
                 auto V = [&](const std::string& sig, const std::string& det)
                 { ctx.rep.violation(prop + "/" + sig, ctx.order(), world_str(gs, c), det); };
@@ -195,13 +202,30 @@ namespace
                 bool threw = false;
                 try
                 {
-                    if (p.k_array)
+                    arr_t karr = make_field(grid, std::vector<double>(n, p.k));
+                    for (std::size_t i = 1; i < n; i += 2)
+                        karr.flat(i) = 4 * p.k;
+                    if (via_setters || c0.p.via_setters)
                     {
-                        arr_t karr = make_field(grid, std::vector<double>(n, p.k));
-                        for (std::size_t i = 1; i < n; i += 2)
-                            karr.flat(i) = 4 * p.k;
-                        er = std::make_unique<fs::spl_eroder<FG>>(fg, karr, p.m, p.n, p.tol);
+                        // decoy construction (other K kind and value, other exponents), one
+                        // erosion step with it, then the setters
+                        if (p.k_array)
+                            er = std::make_unique<fs::spl_eroder<FG>>(fg, 2 * p.k + 0.5, p.m + 0.25, 1.0, p.tol);
+                        else
+                            er = std::make_unique<fs::spl_eroder<FG>>(fg, karr, p.m + 0.25, 1.0, p.tol);
+                        {
+                            arr_t h0 = make_field(grid, s.out), a0 = make_field(grid, std::vector<double>(n, 1.0));
+                            (void) er->erode(h0, a0, 0.5);
+                        }
+                        if (p.k_array)
+                            er->set_k_coef(karr);
+                        else
+                            er->set_k_coef(p.k);
+                        er->set_area_exp(p.m);
+                        er->set_slope_exp(p.n);
                     }
+                    else if (p.k_array)
+                        er = std::make_unique<fs::spl_eroder<FG>>(fg, karr, p.m, p.n, p.tol);
                     else
                         er = std::make_unique<fs::spl_eroder<FG>>(fg, p.k, p.m, p.n, p.tol);
                 }
